@@ -39,15 +39,16 @@ func init() { logrus.SetOutput(io.Discard) }
 
 // personality of the fake registry for one scenario.
 type persona struct {
-	Redirect1  bool `json:"redirect_first"` // first blob GET on the registry is answered 307 -> CDN
-	RedirectN  bool `json:"redirect_later"` // later blob GETs on the registry are answered 307 too
-	CDNExpires int  `json:"cdn_expires_at"` // the k-th CDN request (counted after resolution) is answered 403; 0 = never
-	Challenge  bool `json:"challenge"`      // the registry answers 401 + Bearer challenge until a token is presented
-	Mirror     bool `json:"mirror"`         // a mirror host with its own header is tried first and fails
+	Redirect1  bool   `json:"redirect_first"` // first blob GET on the registry is answered 307 -> CDN
+	RedirectN  bool   `json:"redirect_later"` // later blob GETs on the registry are answered 307 too
+	CDNExpires int    `json:"cdn_expires_at"` // the k-th CDN request (counted after resolution) is answered 403; 0 = never
+	Challenge  bool   `json:"challenge"`      // the registry answers 401 + Bearer challenge until a token is presented
+	Mirror     bool   `json:"mirror"`         // a mirror host with its own header is tried first and fails
+	CDN        string `json:"cdn,omitempty"`  // host the registry redirects to ("" = an unrelated name)
 }
 
 func (p persona) String() string {
-	return fmt.Sprintf("redirect(first=%v,later=%v) cdn403@%d challenge=%v mirror=%v", p.Redirect1, p.RedirectN, p.CDNExpires, p.Challenge, p.Mirror)
+	return fmt.Sprintf("redirect(first=%v,later=%v,to=%q) cdn403@%d challenge=%v mirror=%v", p.Redirect1, p.RedirectN, p.CDN, p.CDNExpires, p.Challenge, p.Mirror)
 }
 
 type hworld struct {
@@ -92,6 +93,9 @@ func (w *hworld) hosts() source.RegistryHosts {
 
 func newHWorld(p persona) *hworld {
 	w := &hworld{p: p, reg: memreg.New(), data: []byte("0123456789abcdefghij")}
+	if p.CDN != "" {
+		w.reg.CDNHost = p.CDN // e.g. the registry's name with another port, or a subdomain of it: still another host
+	}
 	d := digest.FromBytes(w.data)
 	w.reg.AddBlob(d.String(), w.data)
 	w.reg.Token = tokenValue
@@ -190,7 +194,11 @@ func personas(tier string) []persona {
 						if !r1 && exp > 0 && !rn {
 							continue // no CDN ever contacted
 						}
-						out = append(out, persona{r1, rn, exp, ch, mi})
+						out = append(out, persona{Redirect1: r1, RedirectN: rn, CDNExpires: exp, Challenge: ch, Mirror: mi})
+						if (r1 || rn) && !mi {
+							out = append(out, persona{Redirect1: r1, RedirectN: rn, CDNExpires: exp, Challenge: ch, CDN: "reg.test:9000"})
+							out = append(out, persona{Redirect1: r1, RedirectN: rn, CDNExpires: exp, Challenge: ch, CDN: "blobs.reg.test"})
+						}
 					}
 				}
 			}
